@@ -39,24 +39,102 @@ Proof.
   unfold sort_x1 in *. cbn [fold_right]. apply insert_sorted. exact IH.
 Qed.
 
-(* ---------------------------------------------------------------- inner loop *)
+(* ---------------------------------------------------------------- pair enumeration *)
 Definition unskipped (cf : cfg) (p : sample * sample) : bool := negb (skip cf (fst p)) && negb (skip cf (snd p)).
 
-(* when no partner lies to the left of [a] by more than [md], the break never fires *)
-Lemma inner_no_break cf md a js :
-  Forall (fun b => x1 a - x1 b <= md) js ->
-  inner cf md a js = map (pair a) (filter (fun b => negb (skip cf b)) js).
+(* all the pairs the loops of _calculateGeneralSolution1/2 are meant to visit, in loop order:
+   without dates (a, b) for b after a; in date mode also (a, b) for b before a *)
+Fixpoint loop_pairs (dl : bool) (pre cur : list sample) : list (sample * sample) :=
+  match cur with
+  | [] => []
+  | a :: rest => (if dl then map (pair a) pre else []) ++ map (pair a) rest ++ loop_pairs dl (pre ++ [a]) rest
+  end.
+
+Lemma loop_pairs_nodate pre cur : loop_pairs false pre cur = all_pairs cur.
 Proof.
-  induction js as [|b r IH]; intro H; cbn [inner filter map]; [reflexivity|].
-  inversion H as [|? ? Hb Hr]; subst.
-  rewrite (proj2 (qltb_false md (x1 a - x1 b)) Hb).
-  destruct (skip cf b); cbn [negb map]; rewrite (IH Hr); reflexivity.
+  revert pre. induction cur as [|a rest IH]; intro pre; [reflexivity|].
+  cbn [loop_pairs all_pairs app]. rewrite IH. reflexivity.
 Qed.
 
-Lemma sorted_no_break md a rest :
-  0 <= md -> Forall (le_x1 a) rest -> Forall (fun b => x1 a - x1 b <= md) rest.
+(* In date mode every unordered pair is visited in both orders *)
+Definition cross (cur pre : list sample) : list (sample * sample) := flat_map (fun a => map (pair a) pre) cur.
+Lemma cross_snoc cur pre a : Permutation (cross cur (pre ++ [a])) (cross cur pre ++ map (fun c => (c, a)) cur).
 Proof.
-  intros Hmd H. eapply Forall_impl; [|exact H]. intros b Hb. unfold le_x1 in Hb. lra.
+  induction cur as [|c r IH]; [reflexivity|].
+  cbn [cross flat_map map]. fold (cross r (pre ++ [a])). fold (cross r pre).
+  rewrite map_app. cbn [map]. rewrite IH.
+  rewrite <- !app_assoc. apply Permutation_app_head.
+  cbn [app]. apply Permutation_middle.
+Qed.
+Lemma loop_pairs_dates pre cur :
+  Permutation (loop_pairs true pre cur) (all_pairs cur ++ map swap (all_pairs cur) ++ cross cur pre).
+Proof.
+  revert pre. induction cur as [|a rest IH]; intro pre; [reflexivity|].
+  cbn [loop_pairs all_pairs cross flat_map]. fold (cross rest pre).
+  rewrite IH, cross_snoc. rewrite map_app, map_map. cbn [swap fst snd].
+  set (A := map (pair a) pre). set (B := map (pair a) rest). set (C := all_pairs rest).
+  set (D := map swap C). set (E := cross rest pre). set (F := map (fun c => (c, a)) rest).
+  (* A ++ B ++ C ++ D ++ E ++ F   ~   (B ++ C) ++ (F ++ D) ++ A ++ E *)
+  rewrite <- !app_assoc.
+  transitivity (B ++ A ++ C ++ D ++ E ++ F); [apply Permutation_app_swap_app|].
+  apply Permutation_app_head.
+  transitivity (C ++ A ++ D ++ E ++ F); [apply Permutation_app_swap_app|].
+  apply Permutation_app_head.
+  transitivity (A ++ F ++ D ++ E).
+  { apply Permutation_app_head. rewrite (app_assoc D E F). apply Permutation_app_comm. }
+  transitivity (F ++ A ++ D ++ E); [apply Permutation_app_swap_app|].
+  apply Permutation_app_head. apply Permutation_app_swap_app.
+Qed.
+Lemma loop_pairs_ordered l : Permutation (loop_pairs true [] l) (ordered_pairs l).
+Proof.
+  rewrite loop_pairs_dates. unfold ordered_pairs.
+  assert (E : cross l [] = []) by (induction l as [|a r IH]; [reflexivity|]; cbn; exact IH).
+  rewrite E, app_nil_r. reflexivity.
+Qed.
+
+Lemma flat_map_nil {A B} (f : A -> list B) l : (forall x, In x l -> f x = []) -> flat_map f l = [].
+Proof. intro H. induction l as [|x r IH]; [reflexivity|]. cbn. rewrite H by (left; reflexivity). apply IH. intros; apply H; right; assumption. Qed.
+
+Section Enum.
+Context {X : Type}.
+Variable cf : cfg.
+Variable md : Q.
+(* anything computed from a pair that is empty for the pairs the 1-D tests discard *)
+Variable P : sample * sample -> list X.
+Variable ok : sample -> Prop.      (* e.g. "has the dimension of the data base" *)
+Hypothesis P_far : forall a b, ok a -> ok b -> md < x1 b - x1 a \/ md < x1 a - x1 b -> P (a, b) = [].
+
+Lemma inner_after_P a rest :
+  ok a -> Forall ok rest -> StronglySorted le_x1 rest ->
+  flat_map P (inner_after cf md a rest) = flat_map P (map (pair a) (filter (fun b => negb (skip cf b)) rest)).
+Proof.
+  intros Oa Ok. induction rest as [|b r IH]; intro Hs; [reflexivity|].
+  inversion Hs as [|? ? Hr Hall]; subst.
+  inversion Ok as [|? ? Ob Or]; subst.
+  cbn [inner_after filter].
+  destruct (qltb_spec md (x1 b - x1 a)) as [Hb|Hb].
+  - (* break: b and everything after it are too far *)
+    symmetry. apply flat_map_nil. intros p Hp. apply in_map_iff in Hp. destruct Hp as (c & <- & Hc).
+    assert (Hin : In c (b :: r)).
+    { destruct (skip cf b); cbn [negb] in Hc; [right|destruct Hc as [<-|Hc]; [left; reflexivity|right]];
+        apply filter_In in Hc; exact (proj1 Hc). }
+    assert (Oc : ok c) by (rewrite Forall_forall in Ok; apply Ok; exact Hin).
+    apply (P_far a c Oa Oc). left.
+    destruct Hin as [<-|Hin]; [exact Hb|].
+    rewrite Forall_forall in Hall. specialize (Hall c Hin). unfold le_x1 in Hall. lra.
+  - destruct (skip cf b); cbn [negb map flat_map]; rewrite (IH Or Hr); reflexivity.
+Qed.
+
+Lemma inner_before_P a pre :
+  ok a -> Forall ok pre ->
+  flat_map P (inner_before cf md a pre) = flat_map P (map (pair a) (filter (fun b => negb (skip cf b)) pre)).
+Proof.
+  intros Oa Ok. induction Ok as [|b r Ob Or IH]; [reflexivity|].
+  cbn [inner_before filter].
+  destruct (qltb_spec md (x1 a - x1 b)) as [Hb|Hb].
+  - rewrite IH. destruct (skip cf b); cbn [negb map flat_map]; [reflexivity|].
+    rewrite (P_far a b Oa Ob) by (right; exact Hb). reflexivity.
+  - destruct (skip cf b); cbn [negb map flat_map]; rewrite IH; reflexivity.
 Qed.
 
 Lemma filter_map_pair (f : sample -> bool) (g : sample * sample -> bool) a l :
@@ -65,27 +143,42 @@ Proof.
   intro H. induction l as [|b r IH]; cbn; [reflexivity|].
   rewrite H. destruct (f b); cbn; rewrite IH; reflexivity.
 Qed.
-
-(* ---------------------------------------------------------------- outer loop without dates *)
-Lemma filter_skipped_first cf a l : skip cf a = true -> filter (unskipped cf) (map (pair a) l) = [].
+Lemma filter_skipped_first a l : skip cf a = true -> filter (unskipped cf) (map (pair a) l) = [].
 Proof.
   intro Ea. induction l as [|c t IHt]; cbn; [reflexivity|].
   unfold unskipped at 1. cbn [fst snd]. rewrite Ea. cbn. exact IHt.
 Qed.
-Lemma outer1_sorted cf md all cur :
-  c_dateLoop cf = false -> 0 <= md -> StronglySorted le_x1 cur ->
-  outer1 cf md all cur = filter (unskipped cf) (all_pairs cur).
+
+Lemma partners_P pre a rest :
+  ok a -> Forall ok pre -> Forall ok rest ->
+  skip cf a = false -> StronglySorted le_x1 rest ->
+  flat_map P (partners cf md pre a rest) =
+  flat_map P (filter (unskipped cf) ((if c_dateLoop cf then map (pair a) pre else []) ++ map (pair a) rest)).
 Proof.
-  intros Hd Hmd. induction cur as [|a rest IH]; intro Hs; [reflexivity|].
-  inversion Hs as [|? ? Hr Hall]; subst.
-  cbn [outer1 all_pairs]. rewrite Hd.
-  destruct rest as [|b rest']; [reflexivity|].
-  rewrite (IH Hr). rewrite filter_app. f_equal.
-  destruct (skip cf a) eqn:Ea.
-  - symmetry. apply filter_skipped_first. exact Ea.
-  - rewrite (inner_no_break cf md a (b :: rest') (sorted_no_break md a _ Hmd Hall)).
-    apply filter_map_pair. intro c. unfold unskipped. cbn [fst snd]. rewrite Ea. reflexivity.
+  intros Oa Op Or Ea Hs. unfold partners. rewrite filter_app, !flat_map_app.
+  assert (G : forall c, unskipped cf (a, c) = negb (skip cf c)) by (intro c; unfold unskipped; cbn [fst snd]; rewrite Ea; reflexivity).
+  f_equal.
+  - destruct (c_dateLoop cf); [|reflexivity].
+    rewrite (inner_before_P a pre Oa Op). rewrite (filter_map_pair (fun b => negb (skip cf b)) (unskipped cf) a pre G). reflexivity.
+  - rewrite (inner_after_P a rest Oa Or Hs). rewrite (filter_map_pair (fun b => negb (skip cf b)) (unskipped cf) a rest G). reflexivity.
 Qed.
+
+(* what is computed from the pairs actually visited = what would be computed from all the pairs of the loop *)
+Lemma outer1_P pre cur :
+  Forall ok pre -> Forall ok cur -> StronglySorted le_x1 cur ->
+  flat_map P (outer1 cf md pre cur) = flat_map P (filter (unskipped cf) (loop_pairs (c_dateLoop cf) pre cur)).
+Proof.
+  revert pre. induction cur as [|a rest IH]; intros pre Op Oc Hs; [reflexivity|].
+  inversion Hs as [|? ? Hr Hall]; subst.
+  inversion Oc as [|? ? Oa Or]; subst.
+  assert (Op' : Forall ok (pre ++ [a])) by (apply Forall_app; split; [exact Op|constructor; [exact Oa|constructor]]).
+  cbn [outer1 loop_pairs]. rewrite flat_map_app, (IH _ Op' Or Hr).
+  rewrite app_assoc, filter_app, flat_map_app. f_equal.
+  destruct (skip cf a) eqn:Ea.
+  - rewrite filter_app. destruct (c_dateLoop cf); rewrite ?(filter_skipped_first a _ Ea); reflexivity.
+  - apply partners_P; assumption.
+Qed.
+End Enum.
 
 Lemma maxdist_nonneg d : 0 < d_dpas d -> 0 <= d_tol d -> 0 <= maxdist d.
 Proof.
@@ -94,39 +187,36 @@ Proof.
   nra.
 Qed.
 
-(* the pairs reaching keepPair = all pairs i<j of the sorted list whose two ends pass the selection test *)
-Lemma reached1_all_pairs cf d l :
-  c_dateLoop cf = false -> 0 < d_dpas d -> 0 <= d_tol d ->
-  reached1 cf d l = filter (unskipped cf) (all_pairs (sort_x1 l)).
+(* soundness: whatever reaches keepPair is a pair of two unskipped samples at different positions of the sorted list *)
+Lemma inner_after_sound cf md a js p : In p (inner_after cf md a js) -> fst p = a /\ In (snd p) js /\ skip cf (snd p) = false.
 Proof.
-  intros Hd H1 H2. unfold reached1.
-  apply outer1_sorted; [exact Hd|apply maxdist_nonneg; assumption|apply sort_sorted].
-Qed.
-
-(* ---------------------------------------------------------------- with dates: what holds *)
-(* soundness only: whatever reaches keepPair is an (ordered, possibly reflexive) pair of unskipped samples *)
-Lemma inner_sound cf md a js p : In p (inner cf md a js) -> fst p = a /\ In (snd p) js /\ skip cf (snd p) = false.
-Proof.
-  induction js as [|b r IH]; cbn [inner]; [intros []|].
-  destruct (qltb md (x1 a - x1 b)); [intros []|].
+  induction js as [|b r IH]; cbn [inner_after]; [intros []|].
+  destruct (qltb md (x1 b - x1 a)); [intros []|].
   destruct (skip cf b) eqn:E.
   - intro H. destruct (IH H) as (A & B & C). auto with datatypes.
-  - intros [H|H].
-    + subst p. cbn. auto.
-    + destruct (IH H) as (A & B & C). auto with datatypes.
+  - intros [H|H]; [subst p; cbn; auto|]. destruct (IH H) as (A & B & C). auto with datatypes.
 Qed.
-Lemma outer1_sound cf md all cur p :
-  (forall x, In x cur -> In x all) ->
-  In p (outer1 cf md all cur) ->
-  In (fst p) all /\ In (snd p) all /\ skip cf (fst p) = false /\ skip cf (snd p) = false.
+Lemma inner_before_sound cf md a js p : In p (inner_before cf md a js) -> fst p = a /\ In (snd p) js /\ skip cf (snd p) = false.
 Proof.
-  induction cur as [|a rest IH]; intros Hsub; cbn [outer1]; [intros []|].
-  destruct rest as [|b rest']; [intros []|].
+  induction js as [|b r IH]; cbn [inner_before]; [intros []|].
+  destruct (qltb md (x1 a - x1 b)).
+  - intro H. destruct (IH H) as (A & B & C). auto with datatypes.
+  - destruct (skip cf b) eqn:E.
+    + intro H. destruct (IH H) as (A & B & C). auto with datatypes.
+    + intros [H|H]; [subst p; cbn; auto|]. destruct (IH H) as (A & B & C). auto with datatypes.
+Qed.
+Lemma outer1_sound cf md pre cur p :
+  In p (outer1 cf md pre cur) ->
+  In (fst p) cur /\ In (snd p) (pre ++ cur) /\ skip cf (fst p) = false /\ skip cf (snd p) = false.
+Proof.
+  revert pre. induction cur as [|a rest IH]; intro pre; cbn [outer1]; [intros []|].
   intro H. apply in_app_or in H. destruct H as [H|H].
   - destruct (skip cf a) eqn:Ea; [destruct H|].
-    apply inner_sound in H. destruct H as (A & B & C).
-    rewrite A. repeat split; auto.
-    + apply Hsub. left; reflexivity.
-    + destruct (c_dateLoop cf); [exact B|]. apply Hsub. right. exact B.
-  - apply IH; [|exact H]. intros x Hx. apply Hsub. right. exact Hx.
+    unfold partners in H. apply in_app_or in H. destruct H as [H|H].
+    + destruct (c_dateLoop cf); [|destruct H]. apply inner_before_sound in H. destruct H as (A & B & C).
+      rewrite A. repeat split; auto with datatypes; try (apply in_or_app; left; exact B).
+    + apply inner_after_sound in H. destruct H as (A & B & C).
+      rewrite A. repeat split; auto with datatypes; try (apply in_or_app; right; right; exact B).
+  - destruct (IH _ H) as (A & B & C & D). repeat split; auto with datatypes.
+    rewrite <- app_assoc in B. exact B.
 Qed.
